@@ -421,6 +421,11 @@ SHADOWING = [
      {"model": "WITH base AS (SELECT d AS x FROM u), fin AS (SELECT x FROM base) SELECT x FROM fin"}, {"o0": {("u", "d")}, "o1": {("t", "a")}}),
     ("WITH c AS (SELECT a AS x FROM t), d AS (SELECT x FROM c) SELECT d.x AS o0 FROM (WITH c AS (SELECT d AS x FROM u), d AS (SELECT x FROM c) SELECT x FROM d) AS d",
      None, {"o0": {("u", "d")}}),
+    # the inner WITH re-defines an outer CTE name and is read from a CHILD scope of the query that owns it (a derived table, a
+    # scalar subquery, a set-operation operand)
+    ("WITH c AS (SELECT a AS x FROM t) SELECT s.x AS o0 FROM (WITH c AS (SELECT d AS x FROM u) SELECT dd.x FROM (SELECT x FROM c) AS dd) AS s", None, {"o0": {("u", "d")}}),
+    ("WITH c AS (SELECT a AS x FROM t) SELECT s.x AS o0 FROM (WITH c AS (SELECT d AS x FROM u) SELECT (SELECT MAX(x) FROM c) AS x FROM u) AS s", None, {"o0": {("u", "d")}}),
+    ("WITH c AS (SELECT a AS x FROM t) SELECT s.x AS o0 FROM (WITH c AS (SELECT d AS x FROM u) SELECT x FROM c UNION ALL SELECT x FROM (SELECT x FROM c) AS e) AS s", None, {"o0": {("u", "d")}}),
     # dialect-specific presentations (5-tuples: + dialect, key suffix): set operations matched BY NAME, a CTE column list shorter
     # than the body's projection list
     ("SELECT a AS o0, b AS o1 FROM t UNION ALL BY NAME SELECT d AS o1, a AS o0 FROM u", None, {"o0": {("t", "a"), ("u", "a")}, "o1": {("t", "b"), ("u", "d")}}, "duckdb", "by-name"),
